@@ -176,11 +176,19 @@ Definition rmclientrq (st : state) (h : nat) (id : N) : state :=
 
 (* removeclient: the client association ends -- every cached request is cancelled (removeclientrqs),
    the reply queue is emptied releasing its references (removequeue) *)
-Definition removeclient (st : state) (c : nat) : state :=
-  let st1 := fold_left (fun st i => removeclientrq st c (N.of_nat i)) (seq 0 256) st in
-  let cl := get_client st1 c in
-  let st2 := set_client st1 c (mkClient (c_rqs cl) []) in
+(* the client writer has sent (or dropped) everything queued: the queue's references are released (removequeue /
+   the writer's freerq after each reply) *)
+Definition drain_replyq (st : state) (c : nat) : state :=
+  let cl := get_client st c in
+  let st2 := set_client st c (mkClient (c_rqs cl) []) in
   fold_left freerq (c_replyq cl) st2.
+
+Definition removeclient (st : state) (c : nat) : state :=
+  drain_replyq (fold_left (fun st i => removeclientrq st c (N.of_nat i)) (seq 0 256) st) c.
+
+(* freeserver: the writer ended; every slot is released *)
+Definition freeserver (st : state) (s : nat) : state :=
+  fold_left (fun st i => freerqoutdata st s (N.of_nat i)) (seq 0 256) st.
 
 (* ---------------------------------------------------------------- reference accounting (C17)
    holders of request h: client caches, reply queues, server slots *)
@@ -904,3 +912,31 @@ Section Proxy.
           let '(st, o2) := prewait st s now (nth 0 rnd' 0) in (st, o1 ++ o2)
     end.
 End Proxy.
+
+(* ---------------------------------------------------------------- histories
+   The operations the threads perform on the shared request state, one at a time (sequential semantics), each
+   under its own allocation-failure oracle. *)
+Inductive hop :=
+| HRecv (c : nat) (now : Z) (rnd pkt : bytes) (fs : N -> bool)                  (* a client's packet is handed to radsrv *)
+| HReply (s : nat) (buf : bytes) (now : Z) (rnd : bytes) (fs : N -> bool)      (* a server's packet is handed to replyh *)
+| HWriter (s : nat) (now tick : Z) (rnd : bytes) (putfail : bool) (fs : N -> bool)  (* the server writer is released once *)
+| HDrain (c : nat)                                                              (* the client writer empties its queue *)
+| HClientGone (c : nat)                                                         (* removeclient *)
+| HServerGone (s : nat).                                                        (* freeserver *)
+
+Definition new_request (c : nat) (now : Z) (pkt : bytes) : request :=
+  mkRq now 1 (Some pkt) None None (Some c) None None 0 (zeros 16) 0.
+
+Definition hstep (md5 : bytes -> bytes) (rx : N -> bytes -> option (list (Z * Z))) (cfg : config) (st : state) (op : hop) : state :=
+  match op with
+  | HRecv c now rnd pkt fs => let '(st1, h) := alloc_rq st (new_request c now pkt) in fst (radsrv md5 rx cfg fs st1 h c now rnd)
+  | HReply s buf now rnd fs => fst (replyh md5 rx cfg fs st s buf now rnd)
+  | HWriter s now tick rnd putfail fs => fst (writer_release md5 cfg fs 4 st s now tick rnd putfail)
+  | HDrain c => drain_replyq st c
+  | HClientGone c => removeclient st c
+  | HServerGone s => freeserver st s
+  end.
+
+Definition init_state (nclients nservers : nat) : state :=
+  mkState [] (repeat (mkClient (repeat None 256) []) nclients)
+             (repeat (mkServer (repeat empty_slot 256) 0 0 0 0 0%Z 0%Z 0%Z 0%Z false false false) nservers).
